@@ -74,7 +74,8 @@ def _make_unique(em, rd, call, args, obj):
     em.extern_funcs['vstd_new'] = True
     if not args:
         return '((%s)vstd_new(1UL, sizeof(%s)))' % (em.cdecl(t), elem)
-    if len(args) == 1:
+    if len(args) == 1 and '[]' in (qt(call) or ''):
+        # array form make_unique<T[]>(n) only; make_unique<T>(x) (one constructor argument) is not modelled
         return '((%s)vstd_new((unsigned long)(%s), sizeof(%s)))' % (em.cdecl(t), em.E(args[0]), elem)
     return None
 
